@@ -20,10 +20,10 @@ CLAIMS = {
         "category": "proof",
         "engine": "verus",
         "technique": "Verus function contracts on the mechanically extracted real bodies of Stack<T> (unbounded, generic T)",
-        "text": "Every Stack<T> method named by the property carries a total functional contract (result and complete post-state as a function of "
+        "text": "Every Stack<T> method named by the property — including bulk insertion from an exact-size iterator (push_many) and from a plain one (try_extend) — carries a total functional contract (result and complete post-state as a function of "
                 "the pre-state, for success and for each error, with the Underflow/Overflow payload); Verus proves each real body against it for all "
                 "element types, lengths and capacities. History quantification follows because the contracts are functional.",
-        "note": "Trusted: vstd's Vec model, std::any::type_name. push_many / try_extend (iterator adapters + Vec::extend, no vstd spec) are not yet under contract.",
+        "note": "Trusted: vstd's Vec model, std::any::type_name, and the std iterator / slice calls inside push_many and try_extend (ExactSizeIterator::len, Vec::extend(iter.rev()), Vec::extend(iter.take(n)), Iterator::next().is_some(), Vec::capacity / shrink_to, v[i..].reverse(), Option::is_none_or), each a stand-in whose body is that call; the bodies of push_many (at I := Vec<T>) and try_extend (at T := vec::IntoIter<A>) themselves are proved.",
         "design_ref": "DESIGN.md §4 L0, §6 C04",
     },
 }
